@@ -47,8 +47,13 @@ mod harnesses {
         }
     }
 
-    // `Duration * i32` (used as `* -1`): a full-domain and even a seconds < 2^20 harness did not terminate in 900 s
-    // (64-bit division by 10^9 inside the operator); the Mul contract of the stand-in stays an unvalidated assumption.
+    // `Duration * i32`: NOT validated. With a symbolic multiplier a full-domain and even a seconds < 2^20 harness did
+    // not terminate in 900 s (64-bit division by 10^9 inside the operator). With the only multiplier the parser uses
+    // (the constant -1, interval sign in parser.rs) a harness asserting that `d * -1i32` has seconds == -s and
+    // nanoseconds == -n for every d with s != i64::MIN gave NO VERDICT either: CaDiCaL was stopped by a 600 s limit,
+    // kissat after about 450 s (2026-10-04). Neither a success nor a counterexample was obtained, so the harness is
+    // not registered (a timeout would make the thorough tier undecided) and the Mul contract of the stand-in stays an
+    // unvalidated assumption, reported as such in every evidence file.
 
     /// Time::from_hms_nano is Ok exactly for in-range fields and keeps them
     #[kani::proof]
